@@ -31,10 +31,32 @@ OPEN_LOG = []        # (op, path, flags) for every h5f.create/open
 HANDLES = []         # every File object handed out (to check that none is leaked open)
 
 
+CRASH = {"at": None, "count": 0, "hit": False}
+
+
+class CrashInjected(Exception):
+    """the process 'dies' at a writable open of the file (see File.__init__)"""
+
+
 def reset():
     FS.clear()
     del OPEN_LOG[:]
     del HANDLES[:]
+    CRASH.update(at=None, count=0, hit=False)
+
+
+def crash_at(n):
+    """the n-th (1-based) high-level open with write intent from now on raises CrashInjected
+    BEFORE anything is touched; n may be symbolic; None = never"""
+    CRASH.update(at=n, count=0, hit=False)
+
+
+def _crash_point():
+    CRASH["count"] += 1
+    at = CRASH["at"]
+    if at is not None and CRASH["count"] == at:
+        CRASH["hit"] = True
+        raise CrashInjected("injected interruption at writable open #%d" % CRASH["count"])
 
 
 def open_handles(path=None):
@@ -204,12 +226,14 @@ class Attrs:
         self.h = handle
 
     def get(self, name, default=None):
+        self.h.file._check_open()
         d = self.h.node.attrs
         if name in d:
             return _attr_out(d[name])
         return default
 
     def __getitem__(self, name):
+        self.h.file._check_open()
         return _attr_out(self.h.node.attrs[name])
 
     def __setitem__(self, name, value):
@@ -340,9 +364,16 @@ class Group(_Handle):
         self.file._check_open()
         if self.file.readonly:
             raise KeyError("Couldn't delete link (no write intent on file)")
-        if name not in self.node.links:
+        node = self.node
+        if "/" in name:
+            head, _, name = name.rpartition("/")
+            r = self._resolve(head if head else "/")
+            if r is None or not isinstance(r[0], GNode):
+                raise KeyError("Couldn't delete link (component not found)")
+            node = r[0]
+        if name not in node.links:
             raise KeyError("Couldn't delete link (link %r doesn't exist)" % (name,))
-        del self.node.links[name]
+        del node.links[name]
 
     def __len__(self):
         self.file._check_open()
@@ -403,6 +434,49 @@ class Group(_Handle):
         self.node.links[name] = node
         return Dataset._make(self.file, node, _join(self.name, name))
 
+    def create_dataset(self, name, shape=None, dtype=None, data=None, chunks=None, maxshape=None, **kw):
+        """h5py Group.create_dataset as nixio.cmd.upgrade uses it: 1-d, from data; `name` may be
+        an absolute or relative path whose parent exists"""
+        self._check_write("create dataset")
+        if isinstance(name, bytes):
+            name = name.decode("utf-8")
+        head, _, leaf = name.rpartition("/")
+        if head == "":
+            parent = self if not name.startswith("/") else self.file
+        else:
+            parent = self[head]
+        if not isinstance(parent, Group):
+            raise TypeError("fakeh5: parent of a new dataset is not a group")
+        if leaf in parent.node.links:
+            raise ValueError("Unable to create dataset (name already exists)")
+        if isinstance(dtype, _DT):
+            dtype = dtype.dt
+        if dtype is None and isinstance(data, _FArr):
+            dtype = data.dtype.dt
+        if isinstance(dtype, BadDType):
+            raise TypeError("Object dtype %r has no native HDF5 equivalent" % (dtype,))
+        if isinstance(dtype, type) and dtype in (float, int, bool):
+            dtype = _np.dtype(dtype)
+        items = None
+        if data is not None:
+            items = _as_list(data)
+            if items is None:
+                raise TypeError("fakeh5: create_dataset(data=...) expects a sequence")
+            if isinstance(dtype, CompoundDT):
+                items = [r if isinstance(r, _Row) else _Row(dtype, r) for r in items]
+            else:
+                _check_convertible(dtype, items)
+            if shape is None:
+                shape = (len(items),)
+        if shape is None:
+            raise TypeError("One of data, shape or dtype must be specified")
+        if isinstance(shape, int):
+            shape = (shape,)
+        node = DNode(shape, dtype, maxshape if maxshape is not None else tuple(shape), kw.get("compression"))
+        node.value = items
+        parent.node.links[leaf] = node
+        return Dataset._make(self.file, node, _join(parent.name, leaf))
+
     def copy(self, source, dest, name=None, shallow=False):
         dest._check_write("copy object")
         src = self[source] if isinstance(source, (str, bytes)) else source
@@ -419,7 +493,26 @@ class Group(_Handle):
 
 
 class File(Group):
-    def __init__(self, fid):
+    def __init__(self, fid, mode=None, **kw):
+        if not isinstance(fid, FileId):
+            # high-level h5py.File(name, mode): what nixio.cmd.upgrade uses
+            p = _norm_path(fid)
+            mode = "r" if mode is None else mode
+            OPEN_LOG.append(("File", p, mode))
+            if mode == "r":
+                if p not in FS:
+                    raise FileNotFoundError("Unable to open file (file does not exist): %r" % (p,))
+                fid = FileId(FS[p], p, ACC_RDONLY)
+            elif mode in ("a", "r+"):
+                _crash_point()
+                if p not in FS:
+                    if mode == "r+":
+                        raise FileNotFoundError("Unable to open file (file does not exist): %r" % (p,))
+                    FS[p] = Store()
+                    FS[p].order_tracked = False
+                fid = FileId(FS[p], p, ACC_RDWR)
+            else:
+                raise ValueError("fakeh5: File mode %r is not modelled" % (mode,))
         self.fid = fid
         self.store = fid.store
         self.file = self
@@ -446,6 +539,67 @@ class File(Group):
 
     def close(self):
         self.closed = True
+
+    def __enter__(self):
+        return self
+
+    def __exit__(self, *exc):
+        self.close()
+        return False
+
+
+class CompoundDT:
+    """compound (structured) dtype: ordered (field name, field dtype) pairs"""
+
+    def __init__(self, fields):
+        self.fields = [(n, t) for n, t in fields]
+
+    @property
+    def names(self):
+        return tuple(n for n, _ in self.fields)
+
+    def index(self, name):
+        for j, (n, _) in enumerate(self.fields):
+            if n == name:
+                return j
+        raise ValueError("no field of name %s" % name)
+
+    def __len__(self):
+        return len(self.fields)
+
+    def __eq__(self, other):
+        return isinstance(other, CompoundDT) and self.fields == other.fields
+
+    def __hash__(self):
+        return 1
+
+    def __repr__(self):
+        return "fakeh5.compound(%r)" % (self.fields,)
+
+
+class _Row:
+    """one element of a compound dataset (numpy.void): fields by name or position"""
+
+    def __init__(self, dt, vals):
+        self.dt = dt
+        self.vals = tuple(vals)
+
+    def __getitem__(self, k):
+        if isinstance(k, str):
+            return self.vals[self.dt.index(k)]
+        return self.vals[k]
+
+    def __len__(self):
+        return len(self.vals)
+
+    def __eq__(self, other):
+        return isinstance(other, _Row) and self.vals == other.vals
+
+    def __hash__(self):
+        return hash(self.vals)
+
+    def __repr__(self):
+        return "fakeh5.row%r" % (self.vals,)
 
 
 class _FArr:
@@ -566,7 +720,16 @@ class _DT:
 
     @property
     def fields(self):
+        if isinstance(self.dt, CompoundDT):
+            return dict(self.dt.fields)
         return None
+
+    def __len__(self):
+        # numpy: len(dtype) = number of fields, 0 for a plain dtype
+        return len(self.dt) if isinstance(self.dt, CompoundDT) else 0
+
+    def __bool__(self):
+        return True                      # as numpy: a dtype is truthy although its len() may be 0
 
     def __repr__(self):
         return "fakeh5.dtype(%r)" % (self.dt,)
@@ -601,6 +764,11 @@ class Dataset(_Handle):
     @property
     def maxshape(self):
         return self.node.maxshape
+
+    def __len__(self):
+        if not self.node.shape:
+            raise TypeError("Attempt to take len() of scalar dataset")
+        return self.node.shape[0]
 
     @property
     def compression(self):
@@ -641,6 +809,12 @@ class Dataset(_Handle):
         self.file._check_open()
         shape = self.node.shape
         v = self._value()
+        if isinstance(key, str):
+            dt = self.node.dtype
+            if not isinstance(dt, CompoundDT):
+                raise ValueError("Field names only allowed for compound types")
+            j = dt.index(key)
+            return _FArr([row[j] for row in v], shape, dt.fields[j][1])
         if key is Ellipsis or key == () or (isinstance(key, slice) and key == slice(None)):
             return _FArr(_copy.deepcopy(v) if False else _shallow(v), shape, self.node.dtype)
         if not isinstance(key, tuple):
@@ -779,6 +953,7 @@ class _Module:
     Group = Group
     Dataset = Dataset
     string_dtype = staticmethod(string_dtype)
+    CompoundDT = CompoundDT
 
 
 MODULE = _Module()
@@ -791,6 +966,8 @@ def install():
     hg.h5py = MODULE
     nf.h5py = MODULE
     nf.os = FakeOs()
+    import nixio.cmd.upgrade as up
+    up.h5py = MODULE
 
 
 def uninstall():
@@ -801,6 +978,8 @@ def uninstall():
     hg.h5py = h5py
     nf.h5py = h5py
     nf.os = os
+    import nixio.cmd.upgrade as up
+    up.h5py = h5py
 
 
 # ---------------------------------------------------------------------------
@@ -840,6 +1019,8 @@ def snapshot(store, normalize=True):
 
 
 def _canon(v):
+    if isinstance(v, _Row):
+        return ("row", _canon(v.vals))
     if isinstance(v, _np.ndarray):
         return ("nd", tuple(v.tolist()))
     if isinstance(v, (list, tuple)):
@@ -985,6 +1166,152 @@ def _script(h5, path):
     return obs
 
 
+OLD_PROP_FIELDS = ("value", "uncertainty", "reference", "filename", "encoder", "checksum")
+
+
+def old_property_dtype(h5, value_kind):
+    """compound type of a metadata property in NIX formats < 1.1.1; value_kind in int/float/str/bool"""
+    if h5 is MODULE:
+        vt = {"int": _np.dtype("int64"), "float": _np.dtype("float64"), "bool": _np.dtype("bool"),
+              "str": string_dtype()}[value_kind]
+        st = string_dtype()
+        return CompoundDT([("value", vt), ("uncertainty", _np.dtype("float64")), ("reference", st),
+                           ("filename", st), ("encoder", st), ("checksum", st)])
+    vt = {"int": _np.int64, "float": _np.float64, "bool": _np.bool_, "str": h5.string_dtype()}[value_kind]
+    st = h5.string_dtype()
+    return _np.dtype([("value", vt), ("uncertainty", _np.float64), ("reference", st), ("filename", st),
+                      ("encoder", st), ("checksum", st)])
+
+
+def make_old_property(h5, parent, name, value_kind, rows):
+    """create a compound property dataset (rows = tuples in OLD_PROP_FIELDS order) in `parent`"""
+    dt = old_property_dtype(h5, value_kind)
+    if h5 is MODULE:
+        return parent.create_dataset(name, dtype=dt, data=[tuple(r) for r in rows])
+    arr = _np.zeros(len(rows), dtype=dt)
+    for i, r in enumerate(rows):
+        arr[i] = tuple(r)
+    return parent.create_dataset(name, data=arr)
+
+
+def _txt(x):
+    if isinstance(x, bytes):
+        return x.decode("utf-8")
+    if isinstance(x, (_np.generic,)):
+        return x.item()
+    return x
+
+
+def _script_upgrade(h5, path):
+    """the backend calls of nixio.cmd.upgrade (high-level File, compound datasets, absolute
+    paths, field reads, hard links by assignment) - same script on h5py and on fakeh5"""
+    obs = []
+
+    def mk(parent, name):
+        gcpl = h5.h5p.create(h5.h5p.GROUP_CREATE)
+        gcpl.set_link_creation_order(h5.h5p.CRT_ORDER_TRACKED | h5.h5p.CRT_ORDER_INDEXED)
+        return h5.Group(h5.h5g.create(parent.id, name.encode("utf-8"), gcpl=gcpl))
+
+    def ex(fn):
+        try:
+            return ("ok", fn())
+        except Exception as e:  # noqa
+            return ("exc", type(e).__name__)
+
+    if isinstance(path, bytes):
+        path = path.decode()
+    obs.append(("r-missing", ex(lambda: h5.File(path, mode="r"))[0]))
+    with h5.File(path, mode="a") as f:
+        f.attrs["version"] = (1, 1, 0)
+        md = mk(f, "metadata")
+        sec = mk(md, "s")
+        props = mk(sec, "properties")
+        make_old_property(h5, props, "p", "int", [(1, 0.5, "", "", "", ""), (2, 0.5, "", "", "", ""),
+                                                  (3, 0.5, "", "", "", "")])
+        make_old_property(h5, props, "q", "str", [("a", 0.0, "r1", "", "", ""), ("b", 0.25, "", "", "", "c")])
+        make_old_property(h5, props, "e", "float", [])
+        props["p"].attrs["unit"] = "V"
+        plain = props.create_dataset("plain", data=[1.0, 2.0], dtype=float, chunks=True)
+        obs.append(("plain", len(plain.dtype), plain.name, isinstance(plain, h5.Dataset)))
+        sub = mk(mk(sec, "sections"), "sub")
+        make_old_property(h5, mk(sub, "properties"), "z", "bool", [(True, 0.0, "", "", "", "")])
+        data = mk(f, "data")
+        blk = mk(data, "b")
+        das = mk(blk, "data_arrays")
+        da = mk(das, "da")
+        da.attrs["entity_id"] = "ID-DA"
+        dim = mk(mk(da, "dimensions"), "1")
+        dim["ID-DA"] = da
+        mk(data, "b2")
+    obs.append(("closed-after-with", ex(lambda: f.attrs["version"])[0]))
+    with h5.File(path, mode="r") as f:
+        obs.append(("version", tuple(int(x) for x in f.attrs["version"]),
+                    tuple(f.attrs["version"]) >= (1, 2, 1), tuple(f.attrs["version"]) >= (1, 1, 0),
+                    f.attrs.get("id")))
+        found = []
+
+        def find(_, o):
+            if isinstance(o, h5.Dataset) and len(o.dtype):
+                found.append(o.name)
+        f["metadata"].visititems(find)
+        obs.append(("compound-found", found))
+        obs.append(("ro-attr", ex(lambda: f.attrs.__setitem__("id", "x"))[0]))
+        obs.append(("blocks", [b.name for b in f["data"].values()],
+                    ["data_arrays" in b for b in f["data"].values()]))
+        d = f["/data/b/data_arrays/da/dimensions/1"]
+        obs.append(("alias", d.name, "ticks" not in d, "link" not in d, "ID-DA" in d,
+                    d.parent.parent.name, d.parent.parent.attrs["entity_id"], d["ID-DA"].name))
+    with h5.File(path, mode="a") as f:
+        for pn in ("/metadata/s/properties/p", "/metadata/s/properties/q", "/metadata/s/properties/e",
+                   "/metadata/s/sections/sub/properties/z"):
+            prop = f[pn]
+            unc, ref, chk = prop["uncertainty"], prop["reference"], prop["checksum"]
+            values = prop["value"]
+            obs.append(("fields", pn, [_txt(x) for x in values], [float(x) for x in unc],
+                        [_txt(x) for x in ref], len(set(unc)), any(unc), any(ref), any(chk),
+                        any(prop["filename"]), prop.attrs.get("unit"), prop.attrs.get("definition"),
+                        len(values.dtype), len(prop)))
+            rows = prop[:]
+            obs.append(("rows", len(rows), [_txt(r["value"]) for r in rows],
+                        [float(r["uncertainty"]) for r in rows]))
+            dt = values.dtype
+            del f[pn]
+            obs.append(("deleted", pn in f))
+            new = f.create_dataset(pn, dtype=dt, data=values, chunks=True)
+            new.attrs["name"] = pn.split("/")[-1]
+            obs.append(("recreated", new.name, len(new.dtype), [_txt(x) for x in new[:]], tuple(new.shape),
+                        isinstance(new, h5.Dataset)))
+            if any(ref):
+                r2 = f.create_dataset(pn + ".reference", dtype=h5.string_dtype(), data=ref)
+                obs.append(("extra", r2.name, [_txt(x) for x in r2[:]]))
+            if len(set(unc)) > 1:
+                u2 = f.create_dataset(pn + ".uncertainty", dtype=float, data=unc)
+                obs.append(("extra-unc", u2.name, [float(x) for x in u2[:]]))
+            elif any(unc):
+                new.attrs["uncertainty"] = unc[0]
+                obs.append(("attr-unc", float(new.attrs["uncertainty"])))
+        obs.append(("dup", ex(lambda: f.create_dataset("/metadata/s/properties/p", dtype=float, data=[1.0]))[0]))
+        obs.append(("props-now", sorted(f["/metadata/s/properties"].keys())))
+        dim = f["/data/b/data_arrays/da/dimensions/1"]
+        parentda = dim.parent.parent
+        link = mk(dim, "link")
+        link["ID-DA"] = parentda
+        link.attrs["index"] = [-1]
+        del dim["ID-DA"]
+        obs.append(("converted", sorted(dim.keys()), link["ID-DA"].name, [int(x) for x in link.attrs["index"]],
+                    "ID-DA" in dim, dim["link"]["ID-DA"].attrs["entity_id"]))
+        f.attrs["version"] = (1, 2, 1)
+        f.attrs["id"] = "some-id"
+    with h5.File(path, mode="r") as f:
+        obs.append(("after", tuple(int(x) for x in f.attrs["version"]), f.attrs.get("id"),
+                    tuple(f.attrs["version"]) >= (1, 2, 1)))
+        found = []
+        f["metadata"].visititems(lambda n, o: found.append(n)
+                                 if isinstance(o, h5.Dataset) and len(o.dtype) else None)
+        obs.append(("compound-left", found))
+    return obs
+
+
 def validate_against_h5py():
     import os
     import shutil
@@ -997,6 +1324,13 @@ def validate_against_h5py():
         shutil.rmtree(tmp, ignore_errors=True)
     reset()
     fake = _script(MODULE, b"/virtual/t.h5")
+    reset()
+    tmp = tempfile.mkdtemp(prefix="vf_fakeh5_")
+    try:
+        real = real + _script_upgrade(h5py, os.path.join(tmp, "u.h5"))
+    finally:
+        shutil.rmtree(tmp, ignore_errors=True)
+    fake = fake + _script_upgrade(MODULE, "/virtual/u.h5")
     reset()
     if len(real) != len(fake):
         raise AssertionError("fakeh5 script length differs")
